@@ -1,7 +1,7 @@
 ----------------------------- MODULE SFVisitors -----------------------------
 (***************************************************************************)
 (* The stream transducers of package visitors (visitors/expect_obj.go,     *)
-(* visitors/stringer.go, visitors/nilVisitor.go) as state machines over    *)
+(* visitors/nilVisitor.go) as state machines over                          *)
 (* the event alphabet of SFEvents.                                         *)
 (*                                                                         *)
 (* ExpectObjVisitor  forwards the MEMBERS of one object to the active       *)
@@ -11,12 +11,10 @@
 (*   what gotype uses to inline the output of a user folder into the        *)
 (*   enclosing object.  State: depth (open objects incl. the swallowed one).*)
 (*                                                                         *)
-(* StringConvVisitor  forwards structure unchanged and every scalar as a    *)
-(*   string: null -> "", booleans -> true/false, integers -> canonical      *)
-(*   decimal text, floats -> a decimal text that reads back as the same     *)
-(*   float (Go %v), strings unchanged.                                     *)
-(*                                                                         *)
 (* NilVisitor  accepts every event and does nothing.                        *)
+(*                                                                         *)
+(* (visitors.StringConvVisitor is not modelled: it lacks OnByte, so it does *)
+(* not satisfy structform.Visitor and cannot be placed in a pipeline.)      *)
 (*                                                                         *)
 (* The machines are driven by TLC (a) at model level over every stream of   *)
 (* the contract machine (ModelVisitors theorems below, run over GenEvents)  *)
@@ -45,31 +43,6 @@ EoRun(evs) == FoldLeft(EoStep, EoInit, evs)
 \* what the enclosing folder does with the members: wrap them in its own object
 EoWrapped(out) == <<EvStart("objS", -1, "any")>> \o out \o <<EvObjE>>
 
-\* ---- StringConvVisitor ----------------------------------------------------------
-TrueTxt == <<116, 114, 117, 101>>
-FalseTxt == <<102, 97, 108, 115, 101>>
-\* t is THE canonical decimal text of the canonical integer v
-IsDecimalOf(t, v) ==
-  /\ Len(t) >= 1
-  /\ LET neg == t[1] = 45
-         digs == IF neg THEN SubSeq(t, 2, Len(t)) ELSE t IN
-     /\ AllDigits(digs)
-     /\ (Len(digs) > 1 => digs[1] # 48)                 \* no leading zeros
-     /\ CFromDec(neg, DigitsOf(digs)) = v
-     /\ (neg => CIsNeg(v))                              \* no "-0"
-\* the kind of every output event and, where the specification fixes the text, the text
-ScKindOK(e, o) ==
-  CASE e.k \in {"arrS", "objS"} -> o.k = e.k /\ o.len = e.len /\ o.bt = e.bt
-    [] e.k \in {"arrE", "objE"} -> o.k = e.k
-    [] e.k = "key" -> o.k = "key" /\ o.v = e.v
-    [] e.k = "str" -> o.k = "str" /\ o.v = e.v
-    [] e.k = "nil" -> o.k = "str" /\ o.v = <<>>
-    [] e.k = "bool" -> o.k = "str" /\ o.v = (IF e.v[1] = 1 THEN TrueTxt ELSE FalseTxt)
-    [] e.k = "int" -> o.k = "str" /\ IsDecimalOf(o.v, e.v)
-    [] e.k \in {"f32", "f64"} -> o.k = "str"            \* the text is judged through the number table (TraceCodec)
-    [] OTHER -> FALSE
-ScStructure(evs) == [j \in 1..Len(evs) |-> IF IsScalarK(evs[j].k) THEN EvStr(<<>>) ELSE evs[j]]
-
 \* ---- model-level theorems (over the streams TLC enumerates from the contract machine) ----
 \* a complete stream consisting of exactly one object: members forwarded, wrapped they denote the same value
 EoTheorem(evs) ==
@@ -82,6 +55,10 @@ EoTheorem(evs) ==
        /\ SeqEquiv({}, Values(evs), Values(EoWrapped(r.out)))
   ELSE IF evs # <<>> /\ evs[1].k # "objS" THEN r.err = 1 /\ r.out = <<>>
   ELSE TRUE
-\* string conversion keeps the structure: the converted stream is well-formed whenever the input is
-\* (element types announced by a container no longer hold, so they are compared with "any")
+CDepthObj(evs) == Len(SelectSeq(CRun(evs).stk, LAMBDA f : f.k = "obj"))
+\* a prefix of a stream (an abandoned document): everything seen inside the object so far has been forwarded
+EoPrefix(evs) ==
+  LET r == EoRun(evs) IN
+  (evs # <<>> /\ evs[1].k = "objS" /\ CPrefixOK(evs) /\ CRun(evs).done = 0)
+     => (r.err = 0 /\ r.out = SubSeq(evs, 2, Len(evs)) /\ r.depth = CDepthObj(evs))
 =============================================================================
